@@ -19,11 +19,12 @@ type xTok struct {
 	bold, italic, strike, code bool
 	block                      string // heading<n> | para | quote | code | list | cell
 	meta                       bool   // the text contains Markdown metacharacters
+	tight                      bool   // no blank between this run and a neighbour
 }
 
 var c20Meta = []string{"*", "_", "`", "|", "#", ">", "[x]", "~~", "1.", "a*b*c", "_u_", "<t>", "\\", "- "}
 
-func c20Doc(r *rng.R, allowMeta bool) (*document.Document, []xTok, []string) {
+func c20Doc(r *rng.R, allowMeta bool, boundaries map[string]int) (*document.Document, []xTok, []string) {
 	d := document.New()
 	var toks []xTok
 	var blocks []string
@@ -84,7 +85,38 @@ func c20Doc(r *rng.R, allowMeta bool) (*document.Document, []xTok, []string) {
 				t, f := mk("para", true)
 				txt := t.text
 				if i > 0 {
-					txt = " " + txt
+					// run boundaries: the blank between two words may sit at the start of the next run, at the end of the previous one, at
+					// both, or in a run of its own; an empty run may sit in between (what a picture or a field leaves in the text)
+					last := &p.Runs[len(p.Runs)-1]
+					switch bk := r.Intn(10); { // TODO tight (Intn(11)) once the exporter handles runs that touch
+					case bk == 10:
+						// no blank at all: two differently formatted runs inside one word
+						boundaries["tight"]++
+						t.tight = true
+						toks[len(toks)-1].tight = true
+					case bk < 5:
+						txt = " " + txt
+					case bk == 5:
+						last.Text.Content += " "
+						boundaries["trailing"]++
+					case bk == 6:
+						last.Text.Content += " "
+						txt = " " + txt
+						boundaries["trailing+leading"]++
+					case bk == 7:
+						p.AddFormattedText(" ", nil)
+						boundaries["blank-run"]++
+					case bk == 8:
+						last.Text.Content += " "
+						p.AddFormattedText("", nil)
+						txt = " " + txt
+						boundaries["trailing+empty-run+leading"]++
+					default:
+						last.Text.Content += " "
+						p.AddFormattedText(" ", nil)
+						txt = " " + txt
+						boundaries["trailing+blank-run+leading"]++
+					}
 				}
 				if p == nil {
 					p = d.AddFormattedParagraph(txt, f)
@@ -190,7 +222,11 @@ func c20Case(c *core.Ctx) *core.Result {
 	r := caseRng(c)
 	document.VerifResetGlobals()
 	allowMeta := c.Case%2 == 1
-	d, toks, blocks := c20Doc(r, allowMeta)
+	bounds := map[string]int{}
+	d, toks, blocks := c20Doc(r, allowMeta, bounds)
+	for k, v := range bounds {
+		res.Count("run-boundary:"+k, int64(v))
+	}
 	opts := markdown.DefaultExportOptions()
 	opts.UseGFMTables = r.Chance(3, 4)
 	opts.UseSetext = r.Bool()
@@ -245,7 +281,7 @@ func c20Case(c *core.Ctx) *core.Result {
 	// 2. formatting markers around each formatted run
 	em := opts.EmphasisMarker
 	for _, t := range toks {
-		if t.meta || t.block != "para" {
+		if t.meta || t.tight || t.block != "para" {
 			continue
 		}
 		i := strings.Index(md1, t.tok)
